@@ -99,7 +99,7 @@ theorem fold_ok {f : Frame} (hf : f.Legal) {pOld pCur : Int} (ho : PeriodOk pOld
 
 /-- Pitch-based concealment, the inline loops of one channel. -/
 theorem plcPitchInline_ok {f : Frame} (hf : f.Legal) {pitch : Int} (hp : PitchOk pitch) {c : Nat}
-    (hc : c ∈ List.range f.CC.toNat) {a : Acc} (ha : a ∈ plcPitchInlineCh f pitch c) : a.ok f (excLen pitch) := by
+    (_hc : c ∈ List.range f.CC.toNat) {a : Acc} (ha : a ∈ plcPitchInlineCh f pitch c) : a.ok f (excLen pitch) := by
   have hN := frame_N hf
   obtain ⟨hp0, hp1⟩ := hp
   have h100 : (100 : Int) = PLC_PITCH_LAG_MIN := rfl
@@ -121,10 +121,69 @@ theorem plcPitchCallsCh_ok {f : Frame} (hf : f.Legal) {pitch : Int} (hp : PitchO
   have hc0 : (0 : Int) ≤ (c : Int) := Int.natCast_nonneg c
   cases first <;>
     simp only [plcPitchCallsCh, List.flatMap_cons, List.flatMap_nil, List.append_nil, List.nil_append, List.cons_append,
-      Call.accs, List.mem_cons, List.mem_append, List.mem_nil_iff, or_false, false_or, if_true, if_false, Bool.false_eq_true,
-      ite_true, ite_false] at ha
+      Call.accs, List.mem_cons, List.mem_nil_iff, or_false, if_true, if_false, Bool.false_eq_true] at ha
   all_goals
     (repeat' rcases ha with rfl | ha) <;> (try subst ha) <;> refine within_mk ?_ ?_ <;>
       simp only [rd, wr, excP, excLen, outSyn, outSynOff, Arr.cap, memLen, DECODE_BUFFER_SIZE, MAX_PERIOD, CELT_LPC_ORDER, overlap] <;> omega
+
+/-! ## Assembled statements -/
+
+theorem cap_irrel (f : Frame) (x y : Int) {arr : Arr} (h : arr ≠ .fir) : Arr.cap f x arr = Arr.cap f y arr := by
+  cases arr <;> first | rfl | exact absurd rfl h
+
+theorem ok_irrel {f : Frame} {x : Int} (y : Int) {a : Acc} (h : a.arr ≠ .fir) (ha : a.ok f x) : a.ok f y := by
+  unfold Acc.ok at *; rw [cap_irrel f y x h]; exact ha
+
+theorem pitchSearch_noFir : allFrames.all (fun f => ((pitchSearchCalls f).flatMap Call.accs).all fun a => decide (a.arr ≠ .fir)) = true := by
+  decide +kernel
+
+/-- Pitch-based concealment of a whole frame: pitch search (first lost frame only), then per channel the calls and the
+    inline loops. -/
+theorem plcPitch_ok {f : Frame} (hf : f.Legal) {pitch : Int} (hp : PitchOk pitch) (first : Bool) {a : Acc}
+    (ha : a ∈ (plcPitchCalls f pitch first).flatMap Call.accs ++ (List.range f.CC.toNat).flatMap (plcPitchInlineCh f pitch)) :
+    a.ok f (excLen pitch) := by
+  rcases List.mem_append.mp ha with ha | ha
+  · unfold plcPitchCalls at ha
+    rw [List.flatMap_append] at ha
+    rcases List.mem_append.mp ha with ha | ha
+    · cases first
+      · simp at ha
+      · simp only [if_true] at ha
+        have h1 := okAll_mem (all_apply pitchSearch_all hf) ha
+        have h2 := of_decide_eq_true (List.all_eq_true.mp (all_apply pitchSearch_noFir hf) a ha)
+        exact ok_irrel _ h2 h1
+    · obtain ⟨k, hk, hak⟩ := List.mem_flatMap.mp ha
+      obtain ⟨c, hc, hkc⟩ := List.mem_flatMap.mp hk
+      exact plcPitchCallsCh_ok hf hp first hc (List.mem_flatMap.mpr ⟨k, hkc, hak⟩)
+  · obtain ⟨c, hc, hac⟩ := List.mem_flatMap.mp ha
+    exact plcPitchInline_ok hf hp hc hac
+
+/-- Noise-based concealment (frame descriptor with `C = CC`, one long block): buffer shift, optional prefilter_and_fold,
+    synthesis. -/
+theorem plcNoise_ok {f : Frame} (hf : f.Legal) (hC : f.C = f.CC) (hB : f.B = 1) (fold : Bool) {pOld pCur : Int}
+    (ho : PeriodOk pOld) (hc : PeriodOk pCur) {a : Acc}
+    (ha : a ∈ (plcNoiseCalls f fold pOld pCur).flatMap Call.accs ++ (if fold then foldInline f else []) ++
+      synthInline { f with C := f.CC, B := 1 }) : a.ok f 0 := by
+  have hff : ({ f with C := f.CC, B := 1 } : Frame) = f := by
+    obtain ⟨N, LM, C, CC, ds, B⟩ := f; simp only at hC hB; subst hC; subst hB; rfl
+  rw [hff] at ha
+  have hsyn : ∀ a, a ∈ (synthCalls f).flatMap Call.accs ++ synthInline f → a.ok f 0 := fun a h => synth_ok hf h
+  rcases List.mem_append.mp ha with ha | ha
+  · rcases List.mem_append.mp ha with ha | ha
+    · unfold plcNoiseCalls at ha
+      rw [hff, List.flatMap_append, List.flatMap_append] at ha
+      rcases List.mem_append.mp ha with ha | ha
+      · rcases List.mem_append.mp ha with ha | ha
+        · exact okAll_mem (all_apply noiseShift_all hf) ha
+        · cases fold
+          · simp at ha
+          · simp only [if_true] at ha
+            exact fold_ok hf ho hc (List.mem_append_left _ ha)
+      · exact hsyn a (List.mem_append_left _ ha)
+    · cases fold
+      · simp at ha
+      · simp only [if_true] at ha
+        exact fold_ok hf ho hc (List.mem_append_right _ ha)
+  · exact hsyn a (List.mem_append_right _ ha)
 
 end Opus.CeltIdx
